@@ -18,9 +18,11 @@ SOURCES = [scopesuite.scope_tree, scopesuite.valid_scenario]
 
 
 def run(tier, seed, drv):
-    return msuite.standard_run(PID, 'C05', TAGS, tier, seed, drv, SOURCES, nontrivial=nontrivial, rule=RULE,
-                               n_quick=200, n_thorough=6000)
+    # "promptly": when a scope fails, the rest of its children is aborted then and there - the containment judge
+    # of C04 (nothing of a scope's tasks acts after the block was left) is evaluated on the same traces
+    return msuite.standard_run(PID, 'C05', TAGS + ['log'], tier, seed, drv, SOURCES, nontrivial=nontrivial, rule=RULE,
+                               n_quick=200, n_thorough=6000, judge_extra=[('C04', '')])
 
 
 def replay(data, drv):
-    return msuite.standard_replay(PID, 'C05', TAGS, data, drv)
+    return msuite.standard_replay(PID, 'C05', TAGS + ['log'], data, drv, judge_extra=[('C04', '')])
